@@ -4,6 +4,7 @@ small independent HTTP helpers used by adapters and oracles.  Nothing here impor
 import errno
 import io
 import re
+import time
 
 # ----------------------------------------------------------------------------------------------
 # scripted socket (server side of C18: one accepted connection; client side of C19: one connection)
@@ -115,17 +116,32 @@ def split_requests(buf):
 FIXED_DATE = "Thu, 01 Jan 1970 00:00:00 GMT"
 
 
-def c18_request_bytes(req):
+def c18_request_bytes(req, path="/p"):
     """req = (ver, conn, blen): ver 0|1 -> HTTP/1.0|1.1; conn 0 none | 1 keep-alive | 2 close | 3 Keep-Alive (caps) | 4 'keep-alive, close';
     blen: None -> GET without body, n -> POST with n body bytes and Content-Length"""
     ver, conn, blen = req
-    lines = [("GET" if blen is None else "POST") + " /p HTTP/1." + str(ver), "Host: h"]
+    lines = [("GET" if blen is None else "POST") + " " + path + " HTTP/1." + str(ver), "Host: h"]
     c = {0: None, 1: "keep-alive", 2: "close", 3: "Keep-Alive", 4: "keep-alive, close"}[conn]
     if c:
         lines.append("Connection: " + c)
     if blen is not None:
         lines.append("Content-Length: %d" % blen)
     return ("\r\n".join(lines) + "\r\n\r\n").encode("ascii") + b"x" * (blen or 0)
+
+
+def c18_app_reply(app, start_response):
+    """WSGI behaviour of one scripted app entry (status bytes | int, headers, clen, pieces, retval)"""
+    status, headers, clen, pieces, retval = app
+    hs = [(n.decode("latin-1"), v.decode("latin-1")) for n, v in headers]
+    if clen is not None:
+        hs.append(("Content-Length", str(clen)))
+    start_response(status if isinstance(status, int) else status.decode("latin-1"), hs)
+
+    def gen():
+        for p in pieces:
+            yield p
+        return retval
+    return gen()
 
 
 def c18_persisted(req):
@@ -147,24 +163,15 @@ def c18_run(case, max_cycles=None):
     from hio.base import tyming
     from hio.core import tcp
     from hio.core.http import serving, httping
-    reqs, apps, (cuts, gap), quota = case
+    reqs, apps, quota = case[0], case[1], case[3]
+    cuts, gap = case[2][0], case[2][1]
     tymist = tyming.Tymist(tyme=0.0)
     calls = []
 
     def app(environ, start_response):
         k = len(calls)
         calls.append(environ.get("SERVER_PROTOCOL"))
-        status, headers, clen, pieces, retval = apps[k] if k < len(apps) else (b"200 OK", [], None, [], None)
-        hs = [(n.decode("latin-1"), v.decode("latin-1")) for n, v in headers]
-        if clen is not None:
-            hs.append(("Content-Length", str(clen)))
-        start_response(status.decode("latin-1"), hs)
-
-        def gen():
-            for p in pieces:
-                yield p
-            return retval
-        return gen()
+        return c18_app_reply(apps[k] if k < len(apps) else (b"200 OK", [], None, [], None), start_response)
 
     class Servant(tcp.Server):
         def serviceConnects(self):   # no listen socket: the one connection is installed by the script
@@ -173,7 +180,9 @@ def c18_run(case, max_cycles=None):
     servant = Servant(ha=("127.0.0.1", 8080), tymth=tymist.tymen())
     sock = FakeSock(quota=quota)
     ca = sock.peer
-    ix = tcp.Remoter(tymth=tymist.tymen(), ha=sock.name, ca=ca, cs=sock, bs=1 << 16)
+    sched = case[2]
+    bs = sched[2] if len(sched) > 2 else (1 << 16)       # receive buffer size of the connection: small values make one request arrive over many recv()s
+    ix = tcp.Remoter(tymth=tymist.tymen(), ha=sock.name, ca=ca, cs=sock, bs=bs)
     servant.ixes[ca] = ix
     server = serving.Server(servant=servant, app=app)
     stream = b"".join(c18_request_bytes(r) for r in reqs)
@@ -362,7 +371,7 @@ def c19_response_bytes(resp, method=b"GET"):
         step = max(1, (len(body) + 1) // 2)
         for i in range(0, len(body), step):
             piece = body[i:i + step]
-            out += b"%x\r\n" % len(piece) + piece + b"\r\n"
+            out += [b"%x", b"%X", b"0%x"][len(body) % 3] % len(piece) + b"\r\n" + piece + b"\r\n"
         out += b"0\r\n\r\n"
     elif framing == 2:
         out = body
@@ -426,7 +435,8 @@ class World:
             script = self.scripts[port]
             resp = script[k] if k < len(script) else (200, None, b"", 0, 0, [], False)
             self.served.append(resp)
-            raw, close = c19_response_bytes(resp, head.split(b" ", 1)[0])
+            render = getattr(self, "render", None)
+            raw, close = render(resp, head.split(b" ", 1)[0]) if render else c19_response_bytes(resp, head.split(b" ", 1)[0])
             delay, cuts = resp[4], resp[5]
             pts = sorted(set(min(max(c, 1), len(raw)) for c in cuts) | {len(raw)})
             t = self.tick_no + delay
@@ -475,7 +485,8 @@ def c19_run(case):
     from hio.base import tyming
     from hio.core import tcp
     from hio.core.http import clienting, httping
-    secure, reqs, servers, late = case
+    secure, reqs, servers, late = case[:4]
+    second = list(case[4]) if len(case) > 4 else []      # requests queued after the first batch is over, following client.reopen()
     world = World(servers)
     tymist = tyming.Tymist(tyme=0.0)
     RealClient, RealClientTls = tcp.Client, tcp.ClientTls
@@ -525,16 +536,24 @@ def c19_run(case):
         client.reopen()
         n_first = max(1, len(reqs) - min(late, len(reqs))) if reqs else 0
 
+        allreqs = list(reqs) + second
+
         def queue(k):
-            method, path, body = reqs[k][:3]
-            qargs = dict((a.decode("utf-8"), b.decode("utf-8")) for a, b in (reqs[k][3] if len(reqs[k]) > 3 else []))
-            client.request(method=method.decode("ascii"), path=path.decode("ascii"), qargs=qargs, headers={}, body=bytes(body), reply=k)
+            method, path, body = allreqs[k][:3]
+            qa = allreqs[k][3] if len(allreqs[k]) > 3 else []
+            kw = dict(method=method.decode("ascii"), headers={"X-Req": str(k)}, body=bytes(body), reply=k)   # X-Req: lets the oracle tell whose hop a wire item is
+            if path:                    # b"" = no path=: Client.request() takes the requester's stored path
+                kw["path"] = path.decode("utf-8")
+            if qa is not None:          # None = no qargs=: the requester's stored query arguments
+                kw["qargs"] = dict((a.decode("utf-8"), b.decode("utf-8")) for a, b in qa)
+            client.request(**kw)
         for k in range(n_first):
             queue(k)
         queued = n_first
         idle = 0
+        phase = 0
         waited_trace = []
-        budget = 60 + sum(8 + r[4] + len(r[5]) for _, _, rs in servers for r in rs) + 10 * len(reqs)
+        budget = 120 + 2 * sum(8 + r[4] + len(r[5]) for _, _, rs in servers for r in rs) + 20 * (len(reqs) + len(second))
         for cyc in range(budget):
             before = (len(client.responses), len(client.requests), client.waited, sum(len(s.sent) for _, s in world.socks),
                       sum(len(s.inbox) + len(s.timeline) for _, s in world.socks))
@@ -560,6 +579,15 @@ def c19_run(case):
                      sum(len(s.inbox) + len(s.timeline) for _, s in world.socks))
             idle = idle + 1 if before == after else 0
             if idle >= 12:
+                if phase == 0 and second and not client.waited and not out["raised"] and queued >= len(reqs):
+                    # second run on the same Client object: reopen the connection, queue more
+                    phase = 1
+                    client.reopen()
+                    for k in range(len(reqs), len(allreqs)):
+                        queue(k)
+                    queued = len(allreqs)
+                    idle = 0
+                    continue
                 break
     finally:
         tcp.Client, tcp.ClientTls = RealClient, RealClientTls
@@ -571,12 +599,15 @@ def c19_run(case):
                             rqargs=[(a.encode("utf-8"), str(b).encode("utf-8")) for a, b in (rq.get("qargs") or {}).items()],
                             redirects=[(h["status"], h["request"].get("path"), h["request"].get("reply")) for h in r.get("redirects", [])]))
     wire = []
+    rids = []
     for p, h, b, tls in world.wire:
         parts = h.split(b"\r\n", 1)[0].split(b" ")
         wire.append((p, tls, parts[0], parts[1] if len(parts) > 1 else b"", b))
-    out.update(entries=entries, wire=wire, served=list(world.served), overlap=world.overlap,
+        m = re.search(rb"\r\nx-req: (\d+)\r\n", h, flags=re.I)
+        rids.append(int(m.group(1)) if m else -1)
+    out.update(entries=entries, wire=wire, rids=rids, served=list(world.served), overlap=world.overlap,
                insecure_bytes=sum(len(sk.sent) for _, sk in world.socks if not sk.tls),
-               waited=bool(client.waited), left=len(client.requests) + (len(reqs) - queued), sent_to=dict(world.sent_to), unknown=list(world.unknown_target),
+               waited=bool(client.waited), left=len(client.requests) + (len(reqs) + (len(second) if phase == 1 else 0) - queued), phase=phase, sent_to=dict(world.sent_to), unknown=list(world.unknown_target),
                conns=[p for p, _ in world.socks])
     return out
 
@@ -603,6 +634,7 @@ def c14_seq_run(specs, sched):
     from hio import help as hhelp
     builts = []
     requester = None
+    prev = None
     saved_random = clienting.random
     clienting.random = types.SimpleNamespace(randint=lambda a, b: C14_BOUNDARY_N)
     try:
@@ -613,12 +645,21 @@ def c14_seq_run(specs, sched):
             if bkind == 0:
                 body = bytes(bval)
                 if explicit_cl:
-                    hs.append(("Content-Length", str(len(body))))
+                    hs.append(("Content-Length", ("00" if explicit_cl == 2 else "") + str(len(body))))
             elif bkind == 1:
                 data = json.loads(bytes(bval).decode("utf-8"))
             else:
                 fargs = dict((k.decode("utf-8"), v.decode("utf-8")) for k, v in bval)
             qd = dict((k.decode("utf-8"), v.decode("utf-8")) for k, v in qargs)
+            # argument forms and identity (derived from the case so that it stays a plain literal):
+            #  * a caller re-using ONE dict object for equal query arguments of consecutive requests
+            if prev is not None and qargs and list(qargs) == list(prev[0]) and prev[1] is not None:
+                qd = prev[1]
+            prev = (qargs, qd)
+            #  * the str form of a raw body (latin-1 text) and the int form of a numeric header value
+            if bkind == 0 and len(body) % 3 == 1:
+                body = body.decode("latin-1")
+            hs = [(n, int(v) if (v.isascii() and v.isdigit() and str(int(v)) == v and len(v) % 2 == 0) else v) for n, v in hs]
             try:
                 if requester is None or fresh is True or fresh == 1:
                     requester = clienting.Requester(hostname="example.com", port=8080, method=method.decode("utf-8"), path=path.decode("utf-8"),
@@ -630,9 +671,10 @@ def c14_seq_run(specs, sched):
                     msg = requester.rebuild(method=method.decode("utf-8"), path=path.decode("utf-8"), qargs=qd, headers=hhelp.Hict(hs),
                                             body=body, data=data, fargs=fargs)
                 builts.append(bytes(msg))
-            except (ValueError, UnicodeError, KeyError, TypeError) as ex:
+            except Exception as ex:      # whatever build() raises is an observation, never an adapter crash
                 builts.append(("raise", type(ex).__name__))
                 requester = None
+                prev = None
     finally:
         clienting.random = saved_random
     stream = b"".join(b for b in builts if isinstance(b, bytes))
@@ -684,6 +726,321 @@ def c14_seq_run(specs, sched):
             idle = idle + 1 if before == after else 0
             if idle > 8:
                 break
-    except (ValueError, KeyError, AttributeError, TypeError, UnicodeError) as ex:   # escapes the service loop: C16's concern, classified here
+    except Exception as ex:   # escapes the service loop: classified and judged, never an adapter crash
         raised = type(ex).__name__
     return dict(builts=builts, views=views, leftover=bytes(ix.rxbs) if not sock.closed else b"", closed=sock.closed, raised=raised, n_sent=n_sent)
+
+
+def c18_run_multi(conns, mode):
+    """several connections on ONE Server object.  conns = [(reqs, apps, eof_at)], eof_at: None | number of request-stream bytes after
+    which the client goes away (EOF).  mode 0: all connections at once from different addresses, fed round-robin in small pieces;
+    mode 1: one after the other from the SAME address (the next connects when the server has closed / dropped the previous one).
+    returns [dict(raw, closed, calls)] per connection"""
+    from hio.base import tyming
+    from hio.core import tcp
+    from hio.core.http import serving, httping
+    tymist = tyming.Tymist(tyme=0.0)
+    calls = [0] * len(conns)
+
+    def app(environ, start_response):
+        j = int(environ["PATH_INFO"][2:])
+        k = calls[j]
+        calls[j] += 1
+        apps = conns[j][1]
+        return c18_app_reply(apps[k] if k < len(apps) else (b"200 OK", [], None, [], None), start_response)
+
+    class Servant(tcp.Server):
+        def serviceConnects(self):
+            pass
+
+    servant = Servant(ha=("127.0.0.1", 8080), tymth=tymist.tymen())
+    server = serving.Server(servant=servant, app=app)
+    socks = [None] * len(conns)
+    results = {}
+    streams = []
+    for j, (reqs, apps, eof_at) in enumerate(conns):
+        st = b"".join(c18_request_bytes(r, "/c%d" % j) for r in reqs)
+        streams.append(st if eof_at is None else st[:min(eof_at, len(st))])
+
+    def connect(j):
+        peer = ("127.0.0.1", 50000 + (j if mode == 0 else 0))
+        sk = FakeSock(peer=peer)
+        socks[j] = sk
+        servant.ixes[peer] = tcp.Remoter(tymth=tymist.tymen(), ha=sk.name, ca=peer, cs=sk, bs=1 << 16)
+        return sk
+
+    def cycle(n=1):
+        for _ in range(n):
+            server.service()
+            tymist.tick()
+
+    saved = httping.httpDate1123
+    httping.httpDate1123 = lambda dt: FIXED_DATE
+    try:
+        if mode == 0:
+            for j in range(len(conns)):
+                connect(j)
+            pos = [0] * len(conns)
+            step = 23
+            while any(pos[j] < len(streams[j]) for j in range(len(conns))):
+                for j in range(len(conns)):
+                    if pos[j] < len(streams[j]) and not socks[j].closed:
+                        socks[j].feed(streams[j][pos[j]:pos[j] + step])
+                    pos[j] += step
+                    if pos[j] >= len(streams[j]) and conns[j][2] is not None:
+                        socks[j].eof()
+                cycle()
+            idle = 0
+            for _ in range(20000):
+                before = tuple((len(sk.sent), sk.closed) for sk in socks) + tuple(calls)
+                cycle()
+                idle = idle + 1 if before == tuple((len(sk.sent), sk.closed) for sk in socks) + tuple(calls) else 0
+                if idle > 14:
+                    break
+        else:
+            for j in range(len(conns)):
+                sk = connect(j)
+                sk.feed(streams[j])
+                if conns[j][2] is not None:
+                    sk.eof()
+                idle = 0
+                for _ in range(20000):
+                    before = (len(sk.sent), sk.closed, calls[j])
+                    cycle()
+                    idle = idle + 1 if before == (len(sk.sent), sk.closed, calls[j]) else 0
+                    if idle > 14:
+                        break
+                results[j] = dict(raw=bytes(sk.sent), closed=sk.closed, calls=calls[j])
+                if not sk.closed:        # still open (all requests persistent): the client hangs up so that the address is free again
+                    sk.eof()
+                    cycle(4)
+    finally:
+        httping.httpDate1123 = saved
+    return [results.get(j) or dict(raw=bytes(sk.sent), closed=sk.closed, calls=calls[j]) for j, sk in enumerate(socks)]
+
+
+# ----------------------------------------------------------------------------------------------
+# real loopback tier (thorough): the same C18 case through real sockets — hio tcp.Server inside the http Server, hio tcp.Client as the peer
+
+class LoopbackInfra(Exception):
+    """the environment, not the code under test (no free port, cannot connect): becomes core.Infra"""
+
+
+def free_port():
+    import socket
+    s = socket.socket(socket.AF_INET, socket.SOCK_STREAM)
+    try:
+        s.bind(("127.0.0.1", 0))
+        return s.getsockname()[1]
+    finally:
+        s.close()
+
+
+def c18_run_loopback(case):
+    """single-connection C18 case over a real loopback connection under virtual time; send quota and bs of the case do not apply.
+    returns dict(raw, closed, calls)"""
+    from hio.base import tyming
+    from hio.core import tcp
+    from hio.core.http import serving, httping
+    reqs, apps = case[0], case[1]
+    cuts, gap = case[2][0], case[2][1]
+    tymist = tyming.Tymist(tyme=0.0)
+    calls = []
+
+    def app(environ, start_response):
+        k = len(calls)
+        calls.append(1)
+        return c18_app_reply(apps[k] if k < len(apps) else (b"200 OK", [], None, [], None), start_response)
+
+    server = client = None
+    saved = httping.httpDate1123
+    httping.httpDate1123 = lambda dt: FIXED_DATE
+    try:
+        for attempt in range(4):
+            port = free_port()
+            try:
+                server = serving.Server(host="127.0.0.1", port=port, app=app, tymeout=1.0e9)
+                server.wind(tymist.tymen())
+                if server.reopen():
+                    break
+            except OSError:
+                pass
+            server = None
+        if server is None:
+            raise LoopbackInfra("no loopback port could be opened")
+        client = tcp.Client(ha=("127.0.0.1", port), tymth=tymist.tymen())
+        client.reopen()
+        for _ in range(2000):
+            client.serviceConnect()
+            server.service()
+            if client.connected and server.servant.ixes:
+                break
+        else:
+            raise LoopbackInfra("loopback connection was not established")
+        stream = b"".join(c18_request_bytes(r) for r in reqs)
+        pts = sorted(set(min(max(c, 0), len(stream)) for c in cuts) | {len(stream)})
+
+        def cycle():
+            client.serviceSends()
+            server.service()
+            client.serviceReceives()
+            tymist.tick()
+        prev = 0
+        for p in pts:
+            if p > prev and not client.cutoff:
+                client.tx(stream[prev:p])
+            prev = p
+            for _ in range(max(gap, 1)):
+                cycle()
+        idle = 0
+        for _ in range(200000):
+            before = (len(client.rxbs), client.cutoff, len(calls), len(client.txbs))
+            cycle()
+            idle = idle + 1 if before == (len(client.rxbs), client.cutoff, len(calls), len(client.txbs)) else 0
+            if idle > 4:
+                time.sleep(0.004)      # real sockets: small segments may sit in the kernel for a delayed-ACK period (Nagle); quiescence is judged in real time
+            if idle > 70 + max((len(a[3]) for a in apps), default=0):
+                break
+        return dict(raw=bytes(client.rxbs), closed=bool(client.cutoff), calls=len(calls))
+    except OSError as ex:
+        raise LoopbackInfra("socket error on loopback: %r" % (ex,))
+    finally:
+        httping.httpDate1123 = saved
+        try:
+            if client is not None:
+                client.close()
+            if server is not None:
+                server.close()
+        except OSError:
+            pass
+
+
+def c19_run_loopback(case):
+    """the same C19 case with the real Client talking to scripted HTTP servers over REAL loopback sockets (plain http only): every logical
+    port of the case is a real hio tcp.Server on a free port; the World decides what each server answers.  returns the same dict as c19_run"""
+    from hio.base import tyming
+    from hio.core import tcp
+    from hio.core.http import clienting, httping
+    secure, reqs, servers, late = case[:4]
+    second = list(case[4]) if len(case) > 4 else []
+    if secure or any(sec for _, sec, _ in servers):
+        raise LoopbackInfra("loopback tier is plain http only")
+    world = World(servers)
+    tymist = tyming.Tymist(tyme=0.0)
+    portmap, back, listeners = {}, {}, {}
+    out = dict(raised=None)
+    client = None
+    try:
+        for port, _, _ in servers:
+            for attempt in range(4):
+                real = free_port()
+                try:
+                    srv = tcp.Server(ha=("127.0.0.1", real), tymth=tymist.tymen(), tymeout=1.0e9)
+                    if srv.reopen():
+                        portmap[port], back[real], listeners[port] = real, port, srv
+                        break
+                except OSError:
+                    pass
+            else:
+                raise LoopbackInfra("no loopback port could be opened")
+        shims = {}       # (logical port, ca) -> FakeSock used as the World's per-connection state
+
+        def render(resp, method):
+            st, loc, body, fr, delay, cuts, close = resp
+            if loc is not None and loc[1] in portmap:
+                loc = (loc[0], portmap[loc[1]], loc[2])
+            return c19_response_bytes((st, loc, body, fr, delay, cuts, close), method)
+
+        def serve_all():
+            for port, srv in listeners.items():
+                srv.serviceConnects()
+                srv.serviceReceivesAllIx()
+                for ca, ix in list(srv.ixes.items()):
+                    key = (port, ca)
+                    if key not in shims:
+                        shims[key] = world.connect(port, False)
+                        shims[key].render = render
+                    sh = shims[key]
+                    if ix.rxbs:
+                        data = bytes(ix.rxbs)
+                        ix.clearRxbs()
+                        world.on_send(sh, data)
+                    if sh.inbox:
+                        ix.tx(bytes(sh.inbox))
+                        del sh.inbox[:]
+                    ix.serviceSends()
+                    if (sh.closed_by_peer and not sh.timeline and not ix.txbs) or ix.cutoff:
+                        srv.removeIx(ca)
+        world.render = render
+        client = clienting.Client(hostname=HOST, port=portmap[servers[0][0]], tymth=tymist.tymen())
+        client.reopen()
+        allreqs = list(reqs) + second
+
+        def queue(k):
+            method, path, body = allreqs[k][:3]
+            qa = allreqs[k][3] if len(allreqs[k]) > 3 else []
+            kw = dict(method=method.decode("ascii"), headers={"X-Req": str(k)}, body=bytes(body), reply=k)
+            if path:
+                kw["path"] = path.decode("utf-8")
+            if qa is not None:
+                kw["qargs"] = dict((a.decode("utf-8"), b.decode("utf-8")) for a, b in qa)
+            client.request(**kw)
+        n_first = max(1, len(reqs) - min(late, len(reqs))) if reqs else 0
+        for k in range(n_first):
+            queue(k)
+        queued, idle, phase = n_first, 0, 0
+        for cyc in range(4000):
+            before = (len(client.responses), len(client.requests), client.waited, len(world.wire), sum(len(s.timeline) for _, s in world.socks))
+            try:
+                client.service()
+            except Exception as ex:
+                out["raised"] = (type(ex).__name__, False)
+                break
+            serve_all()
+            world.note_read()
+            world.tick()
+            tymist.tick()
+            if queued < len(reqs) and client.responses:
+                while queued < len(reqs):
+                    queue(queued)
+                    queued += 1
+            after = (len(client.responses), len(client.requests), client.waited, len(world.wire), sum(len(s.timeline) for _, s in world.socks))
+            idle = idle + 1 if before == after else 0
+            if idle > 4:
+                time.sleep(0.004)      # see c18_run_loopback
+            if idle >= 70:
+                if phase == 0 and second and not client.waited and queued >= len(reqs):
+                    phase = 1
+                    client.reopen()
+                    for k in range(len(reqs), len(allreqs)):
+                        queue(k)
+                    queued = len(allreqs)
+                    idle = 0
+                    continue
+                break
+        entries = []
+        for r in client.responses:
+            rq = r["request"]
+            entries.append(dict(status=r["status"], body=bytes(r["body"]), errored=bool(r["errored"]), tag=rq.get("reply"),
+                                method=rq.get("method"), path=rq.get("path"), rbody=bytes(rq.get("body") or b""),
+                                rqargs=[(a.encode("utf-8"), str(b).encode("utf-8")) for a, b in (rq.get("qargs") or {}).items()],
+                                redirects=[(h["status"], h["request"].get("path"), h["request"].get("reply")) for h in r.get("redirects", [])]))
+        wire, rids = [], []
+        for p, h, b, tls in world.wire:
+            parts = h.split(b"\r\n", 1)[0].split(b" ")
+            wire.append((p, tls, parts[0], parts[1] if len(parts) > 1 else b"", b))
+            m = re.search(rb"\r\nx-req: (\d+)\r\n", h, flags=re.I)
+            rids.append(int(m.group(1)) if m else -1)
+        out.update(entries=entries, wire=wire, rids=rids, served=list(world.served), overlap=world.overlap, insecure_bytes=0,
+                   waited=bool(client.waited), left=len(client.requests) + (len(reqs) + (len(second) if phase == 1 else 0) - queued), phase=phase)
+        return out
+    except OSError as ex:
+        raise LoopbackInfra("socket error on loopback: %r" % (ex,))
+    finally:
+        try:
+            if client is not None:
+                client.close()
+            for srv in listeners.values():
+                srv.close()
+        except OSError:
+            pass
